@@ -5,8 +5,8 @@
    destination of the same geometry, can be plugged in. *)
 From Coq Require Import List NArith ZArith Lia.
 From GoMC Require Import Base.Bytes Base.Dec Model.C05 Model.C06 Model.C11 Model.C13
-  Proofs.C13 Proofs.C13_nbt Proofs.C13_wire.
-From GoMC Require Model.C01 Proofs.C11.
+  Proofs.C13 Proofs.C13_nbt Proofs.C13_wire Proofs.C13_inst Proofs.C13_save Proofs.C13_registry Gen.Registry.
+From GoMC Require Model.C01 Model.C12 Proofs.C11 Proofs.C12 Proofs.C01_dec.
 Import ListNotations.
 Open Scope N_scope.
 
@@ -37,6 +37,88 @@ Theorem C13_wire :
     hOF (c_hm c') = hOF (c_hm d) /\ hMBNL (c_hm c') = hMBNL (c_hm d) /\
     c_bes c' = c_bes c /\ c_status c' = c_status d.
 Proof. exact wire_roundtrip. Qed.
+
+(* NETWORK FORM, NO CONTAINER HYPOTHESIS LEFT: the same statement over C12's model of PaletteContainer
+   (Model/C12.v), the container round trip discharged by C12's wire theorem.  The side conditions on the
+   containers, spelled out: every container of the source satisfies C12's invariant Inv, has fewer than
+   2^31 longs, and its palette fits the fuel fuelc of the reader's value loop (i_good); every container of
+   the destination has the kind/registry width (ccfg) and the length (blen) of the source container it
+   receives (i_compat) - whatever its palette kind, width, contents and history.  pabs is the array of
+   ids a container denotes. *)
+Theorem C13_wire_instantiated :
+  forall (fuelc : nat) (c d : chunk Model.C12.pc) fuel rest,
+  chunk_ok Model.C12.pc i_write (i_good fuelc) i_compat c d -> (wire_fuel Model.C12.pc c <= fuel)%nat ->
+  exists img c', chunk_write Model.C12.pc i_write c = Some img /\
+    run_flat (chunk_read Model.C12.pc (i_read fuelc) fuel d) (img ++ rest) = FOk (c', lenN img) rest /\
+    Forall3 (sec_rel Model.C12.pc (list Z) Proofs.C12.pabs) (c_secs c) (c_secs d) (c_secs c') /\
+    hMB (c_hm c') = hMB (c_hm c) /\ hWS (c_hm c') = hWS (c_hm c) /\
+    hWSWG (c_hm c') = hWSWG (c_hm d) /\ hOFWG (c_hm c') = hOFWG (c_hm d) /\
+    hOF (c_hm c') = hOF (c_hm d) /\ hMBNL (c_hm c') = hMBNL (c_hm d) /\
+    c_bes c' = c_bes c /\ c_status c' = c_status d.
+Proof. exact wire_instantiated. Qed.
+(* what i_good and i_compat are *)
+Theorem C13_wire_side_conditions : forall (fuelc : nat) (c d : Model.C12.pc),
+  (i_good fuelc c <-> (Proofs.C12.Inv c /\ (lenN (data (Model.C12.cdata c)) < 2^31) /\
+                       (length (Model.C12.pal_export (Model.C12.cpal c)) <= fuelc)%nat)) /\
+  (i_compat c d <-> ((Model.C12.ccfg d = Model.C12.ccfg c) /\ (blen (Model.C12.cdata d) = blen (Model.C12.cdata c)))).
+Proof. intros. split; reflexivity. Qed.
+
+(* SAVE FORM.  For the concrete container of Model/C13.v (PaletteContainer at field level), any registry
+   whose two directions are mutually inverse where defined (C13_registry's subject), any registry widths
+   9..32 / 4..32, every chunk whose containers satisfy the field-level invariant wc_inv (kind and storage
+   width as the configuration tables give for the logical width, well-formed BitStorage of 4096 / 64
+   entries, palette present and within its width, every position resolvable), whose palette values the
+   registry names, whose six height maps are well-formed storages of the chunk's geometry, and any
+   destination save chunk whose YPos keeps Y inside int8:
+   ChunkToSave succeeds, stores EACH of the six height maps under ITS OWN key, leaves every other key of
+   the destination's map alone, stores the status; and ChunkFromSave of the result succeeds and returns
+   sections that agree with the source at EVERY position of block states and biomes (all palette
+   classes: single, 4-bit linear, 5..8-bit hash, direct; 1..3-bit biomes incl. the 3-bit/4-long case,
+   direct), the same light arrays, the recounted number of non-air blocks, the six height maps
+   identically (each from its own key) and the status. *)
+Theorem C13_save :
+  forall st_name st_id bio_name bio_id is_air gs gb (c : wchunk) (dst : schunk),
+  (forall v x, st_name v = Some x -> st_id x = Some v) ->
+  (forall v x, bio_name v = Some x -> bio_id x = Some v) ->
+  (9 <= gs <= 32)%Z -> (4 <= gb <= 32)%Z ->
+  save_ok st_name bio_name gs gb c dst ->
+  exists s secs',
+    to_save st_name bio_name c dst = SOk s /\
+    hm_lookup kWSWG (sc_hm s) = Some (raw_of (hWSWG (c_hm c))) /\ hm_lookup kWS (sc_hm s) = Some (raw_of (hWS (c_hm c))) /\
+    hm_lookup kOFWG (sc_hm s) = Some (raw_of (hOFWG (c_hm c))) /\ hm_lookup kOF (sc_hm s) = Some (raw_of (hOF (c_hm c))) /\
+    hm_lookup kMB (sc_hm s) = Some (raw_of (hMB (c_hm c))) /\ hm_lookup kMBNL (sc_hm s) = Some (raw_of (hMBNL (c_hm c))) /\
+    (forall k, Forall (fun k' => bytes_eq k k' = false) six_keys -> hm_lookup k (sc_hm s) = hm_lookup k (sc_hm dst)) /\
+    sc_status s = c_status c /\ length (sc_secs s) = length (c_secs c) /\
+    from_save st_id bio_id is_air gs gb s = SOk (map Some secs', c_hm c, c_status c) /\
+    Forall2 (sec_same is_air) (c_secs c) secs'.
+Proof. exact save_roundtrip. Qed.
+(* the width rule behind it: New*PaletteContainerWithData on the raw longs and the exported palette of any
+   container satisfying the invariant rebuilds a container of the same kind, data and palette *)
+Theorem C13_width_recovery : forall gs gb c,
+  ((9 <= gs <= 32)%Z -> wc_inv false gs 4096 c ->
+     exists c', with_data gs gb false 4096 (data (w_data c)) (wc_export c) = SOk c' /\ wc_same c c') /\
+  ((4 <= gb <= 32)%Z -> wc_inv true gb 64 c ->
+     exists c', with_data gs gb true 64 (data (w_data c)) (wc_export c) = SOk c' /\ wc_same c c').
+Proof. intros. split; [apply with_data_states|apply with_data_biomes]. Qed.
+
+(* THE REGISTRY, a finite sweep over ALL 26,684 block states re-checked by the kernel (exhaustive
+   execution on a finite domain, not an inductive argument).  Gen/Registry.v is dumped on every run by
+   running level/block itself: row i holds the compact key of the (name, properties) that the code path
+   of writeStatesPalette produces for state i (block index, mixed-radix number of the property values;
+   two states get the same key exactly when name and properties are the same) and the id the code path of
+   readStatesPalette returns for that palette entry.  For every i < 26,684: the entry of state i is read
+   back as i (back o forth = id); the keys are duplicate-free, so forth is injective and forth o back = id
+   on its image: the two directions are mutually inverse. *)
+Theorem C13_registry :
+  reg_count = 26684 /\ lenN reg_rows = 26684 /\
+  (forall i, i < 26684 -> reg_back i = i) /\
+  NoDup (map fst reg_rows) /\
+  (forall i j, i < 26684 -> j < 26684 -> reg_key i = reg_key j -> i = j).
+Proof.
+  pose proof registry_facts as (H1 & H2 & H3 & H4).
+  assert (E: reg_count = 26684) by reflexivity. rewrite E in *.
+  split; [reflexivity|]. split; [exact H1|]. split; [exact H2|]. split; [exact H3|exact H4].
+Qed.
 
 (* the height maps travel as the network-format NBT compound {MOTION_BLOCKING: [L;..], WORLD_SURFACE: [L;..]}
    (C01's textbook encoding), and reading it back gives both arrays and consumes exactly the image *)
@@ -147,6 +229,11 @@ Example C13_ex_count :
 Proof. vm_compute. reflexivity. Qed.
 
 Print Assumptions C13_wire.
+Print Assumptions C13_wire_instantiated.
+Print Assumptions C13_wire_side_conditions.
+Print Assumptions C13_save.
+Print Assumptions C13_width_recovery.
+Print Assumptions C13_registry.
 Print Assumptions C13_heightmap_nbt.
 Print Assumptions C13_heightmap_read.
 Print Assumptions C13_block_entity.
